@@ -111,7 +111,11 @@ def eval_case(case):
         fails.append(['hang', r.brief()])
         return mkres(case, nt=nt, classes=cl, fails=fails)
     # connection counts
-    if len(blocking) > 1 + nkeys + 9 * ngex:
+    if case.get('ssh1'):
+        # one connection, or two when the SSH-2 attempt is answered with the version-mismatch text
+        if len(net.connects) > 2:
+            fails.append(['too-many-connections-to-ssh1-peer', 'argv %r spec %r: %d connections' % (argv, spec, len(net.connects))])
+    elif len(blocking) > 1 + nkeys + 9 * ngex:
         fails.append(['too-many-audit-connections', 'argv %r: %d handshake/probe connections, bound 1 + %d host-key types + 9 x %d GEX algorithms' % (argv, len(blocking), nkeys, ngex)])
     if skip and nb:
         fails.append(['rate-check-ran-despite-skip-option', '%d connections' % len(nb)])
@@ -172,7 +176,7 @@ def strat_case():
     def build(t):
         kex, keys, moduli_mask, style, rate, skip, nf, fw, ff, fi, policy, banner = t
         sizes = [512, 768, 1024, 1536, 2048, 3072, 4096, 6144, 8192]
-        spec = {'banner': banner, 'kex': list(dict.fromkeys(kex)), 'key': list(dict.fromkeys(keys)), 'hostkeys': {k: v for k, v in HOSTKEYS.items()},
+        spec = {'banner': banner, 'kex': list(kex) if moduli_mask % 3 == 0 else list(dict.fromkeys(kex)), 'key': list(keys) if moduli_mask % 5 == 0 else list(dict.fromkeys(keys)), 'hostkeys': {k: v for k, v in HOSTKEYS.items()},
                 'moduli': [s for i, s in enumerate(sizes) if moduli_mask >> i & 1], 'gex_style': style, 'rate': rate,
                 'faults': [[fw[i], fi[i], ff[i]] for i in range(nf)]}
         opts = [[], ['-j'], ['-b'], ['-v'], ['-jj', '-b'], ['-j', '-b', '-v'], ['-l', 'fail'], ['-4']][moduli_mask % 8]
@@ -200,6 +204,13 @@ def run(ctx):
                 grid.append({'spec': dict(base, kex=kexes, rate=rate), 'skip_rate': skip, 'argv': []})
                 grid.append({'spec': dict(base, kex=kexes, rate=rate), 'skip_rate': skip, 'argv': ['-j']})
     ctx.map(grid)
+    # SSH-1 peers: -1, the version-mismatch fallback, and a peer that keeps answering with the mismatch text
+    s1 = []
+    for spec in ({'proto': 1}, {'proto': 1, 'always_differ': True}, {'proto': 1, 'bad_crc': True}, {'proto': 1, 'faults': [['pkm', '*', 'close']]}):
+        for argv in ([], ['-1'], ['-j'], ['-2']):
+            for skip in (False, True):
+                s1.append({'spec': spec, 'skip_rate': skip, 'argv': argv, 'ssh1': True})
+    ctx.map(s1)
     ab = []
     for beh in ['normal', 'close', 'greet:Exceeded MaxStartups\r\n', 'stall'] + ([] if ctx.quick else ['greet:HTTP/1.1 400 Bad Request\r\n\r\n', 'greet:SSH']):
         for kexes in ((['curve25519-sha256'],) if ctx.quick else (['curve25519-sha256'], ['diffie-hellman-group14-sha256', 'diffie-hellman-group-exchange-sha256'])):
